@@ -441,3 +441,76 @@ def check_supply(ctx, rule: str = "R-RECON-SUPPLY") -> int:
 
 def norm_call(c: ast.Call) -> str:
     return " ".join(ast.unparse(c).split())[:80]
+
+
+# ------------------------------------------------------------------------------------------ R-RECON-ROUNDTRIP
+IDEMPOTENT_PREFIXES = ("validate_", "_validate_", "number_to_tuple", "ensure_")
+IDEMPOTENT_CALLS = {"tuple", "list", "float", "int", "bool", "str", "asarray", "array", "copy", "deepcopy", "abs"}
+
+
+def check_roundtrip(ctx, rule: str = "R-RECON-ROUNDTRIP", only_seed: str = "_from_partitioned_args") -> int:
+    """`K(**{p: getattr(obj, p)})` rebuilds the same object only if reading p gives back what the constructor was
+    given: for a copied parameter p whose constructor store is `self._x = f(p)` and whose getter returns `g(self._x)`,
+    g(f(p)) must normalise to p.  Validators and casts (validate_*, tuple, float, asarray ...) are idempotent and
+    count as the identity; if the composition is an *arithmetic* function of p other than p itself (p / 1000, -p,
+    p + c) the object rebuilt in a dask block has f applied twice — the lazy result differs from the eager one."""
+    from ..terms import Normalizer
+
+    repo: Repo = ctx.repo
+    n = 0
+
+    def ident_hook(nz, call: ast.Call):
+        fn = (call_name(call) or "").split(".")[-1]
+        if call.args and (fn in IDEMPOTENT_CALLS or fn.startswith(IDEMPOTENT_PREFIXES)):
+            return nz.norm(call.args[0])
+        return None
+
+    for k in concrete_classes(repo):
+        f = k.find_method(only_seed)
+        if f is None or f.is_abstract or not copy_kwargs_calls(f):
+            continue
+        params = ctor_params(repo, k) or []
+        inits = repo.init_chain(k)
+        for p in params:
+            # the store of p in the executed constructor chain: self.<attr> = f(p) with p the init's own parameter
+            store = None
+            for g in inits:
+                if p not in g.params:
+                    continue
+                for st in walk_no_nested(g.node):
+                    if isinstance(st, ast.Assign) and len(st.targets) == 1 and (dotted(st.targets[0]) or "").startswith("self.") \
+                            and any(isinstance(x, ast.Name) and x.id == p for x in ast.walk(st.value)):
+                        names = {x.id for x in ast.walk(st.value) if isinstance(x, ast.Name)} - {"np", "xp"}
+                        if names <= {p, "self"} | set(dir(__builtins__) if not isinstance(__builtins__, dict) else __builtins__):
+                            store = (g, st)
+                            break
+                if store:
+                    break
+            getter = k.find_method(p, "getter")
+            if store is None or getter is None or not getter.is_property:
+                continue
+            rets = [r for r in walk_no_nested(getter.node) if isinstance(r, ast.Return) and r.value is not None]
+            if len(rets) != 1:
+                continue
+            attr = dotted(store[1].targets[0])
+            if not any(dotted(x) == attr for x in ast.walk(rets[0].value)):
+                continue
+            nz_f = Normalizer(call_hook=ident_hook)
+            fp = nz_f.norm(store[1].value)
+            nz_g = Normalizer(call_hook=ident_hook, atom_alias={attr: "⟦stored⟧"})
+            gp = nz_g.norm(rets[0].value)
+            if "⟦stored⟧" not in gp.atoms() or not (fp.atoms() <= {p}):
+                continue  # not a pure arithmetic function of the parameter: not decided here
+            comp = gp.subst({"⟦stored⟧": fp}) if all(e.denominator == 1 for m in gp.terms for _, e in m) else None
+            if comp is None:
+                continue
+            n += 1
+            from ..terms import Poly
+
+            ctx.check(comp == Poly.atom(p), rule, f"{k.qualname}:{p}", getter.where,
+                      f"reading `{p}` returns what the constructor was given",
+                      f"{k.name}.__init__ stores `{ast.unparse(store[1])[:60]}` and the property `{p}` returns "
+                      f"`{ast.unparse(rets[0].value)[:40]}`: reading the parameter back gives {comp.key()}, not {p}; "
+                      f"{f.short} rebuilds the object from _copy_kwargs inside dask blocks, so the conversion is "
+                      "applied twice on the lazy path only", key_detail="roundtrip")
+    return n
